@@ -705,6 +705,12 @@ def run_e2e_create(ctx, cases, norm):
         case = {"kind": "e2e-create", "argv": ["imdl"] + argv, "rc": rc, "stdout": out.decode("utf-8", "replace"),
                 "stderr": err.decode("utf-8", "replace")[-400:],
                 "shell": "head -c %d /dev/zero | tr '\\0' x > payload; imdl %s" % (c["size"], " ".join(sh_quote(a) for a in argv))}
+        if c["name"] in ("", ".", "..") or "/" in c["name"]:
+            # not a single path component: `create` refuses such names (fix 37d1563, C09's business); names of this kind reach
+            # the magnet encoder through `torrent link` on hand-written torrents instead (run_e2e_link)
+            ctx.count("create_refuses_name_not_one_component" if rc == 1 else "create_name_not_one_component_rc_%d" % rc)
+            if rc == 1:
+                continue
         if rc != 0 or tb is None:
             ctx.violation("oracle-failure", "`torrent create --link` failed (rc %d) for name %r" % (rc, c["name"]), case)
             continue
